@@ -51,7 +51,7 @@ pub fn pick_targets(t: &T, rng: &mut Rng) -> Vec<[u8; 32]> {
 }
 
 pub fn run(ctx: &mut Ctx) {
-    let total = ctx.n(150_000, 3_000_000);
+    let total = ctx.n(150_000, 1_000_000);
     for case in ctx.cases(total) {
         ctx.begin_case(case);
         let mut rng = ctx.rng(case);
